@@ -1,4 +1,5 @@
 import ZChain.Proofs.LockSet
+import ZChain.Proofs.IndexOwn
 import ZChain.Generated.C44
 /-!
 # C44 — shared protocol structures are free of data races
@@ -222,5 +223,38 @@ example : anyB groups (fun g => Nat.beq g.1 (nm! "Round.VRFOutput") &&
     anyB g.2 (fun p => !p.write && anyB p.locks (fun l => !l.excl)) &&
     allB g.2 (fun p => allB g.2 (fun q => pairOK [] p q))) = true := by decide +kernel
 example : groupsOKB [] groups = false := by decide +kernel
+
+/-! ## Ownership by index: shared slices written WITHOUT a lock
+
+The lockset rows above cannot express why `encryption.BLS0ChainAggregateSignatureScheme` (no mutex; `Aggregate` does an
+unsynchronised check-then-set on `ASigs[idx / BatchSize]` and `AGt[idx / BatchSize]`) is safe inside
+`ValidateTransactions`: only because worker `k` is the sole writer of slot `k`. `xc44` (own.go) extracts the arithmetic —
+the stride and bound of the spawning loop, the index expression `start + i` handed to `Aggregate`, the slot expression
+`idx / BatchSize` and the batch size the aggregator is constructed with — and fails closed on any other shape.
+`Proofs/IndexOwn.lean` proves: stride = bound = batch size ⇒ no two workers ever share a slot (`disjoint_of_eq`; also when
+the batch size divides the stride, `disjoint_of_dvd`), and conversely a batch size that does NOT divide the stride makes
+the last index of worker 0 and the first of worker 1 share a slot (`shared_of_not_dvd`; `balanced_stride_shares_a_slot` is
+the instance 5 transactions / batch 4 / "balanced" stride 3). Here the premise is decided for the EXTRACTED expressions:
+they must be literally the same expression (`mc.ValidationBatchSize()` at the pinned commit). -/
+section IndexOwnership
+open ZChain.IndexOwn
+
+/-- the translator recognised the site and its stride, bound and aggregator batch size are one expression, its loop limit
+and the aggregator's total another -/
+theorem aggregator_site_recognised :
+    stridedSites.map (·.name) = [nm! "VT.aggregator"] ∧ ∀ s ∈ stridedSites, s.sameBatch = true := by decide
+
+/-- **C44, ownership by index.** For every valuation of the extracted expressions (the same text has the same value
+within one call) and every number of transactions: two different batch workers of `ValidateTransactions` never hand the
+lock-free aggregator indices of the same slot. -/
+theorem aggregator_slots_disjoint : ∀ s ∈ stridedSites, ∀ val : Nat → Nat, s.Disjoint val :=
+  fun s hs val => StridedSite.disjoint_of_sameBatch s (aggregator_site_recognised.2 s hs) val
+
+/-- the one-goroutine-per-index sites (each goroutine gets the loop index by value and writes the shared slices only
+there — checked by the translator, which fails closed otherwise) are present and non-empty -/
+theorem per_index_sites_recognised :
+    perIndexSites.map (·.1) = [nm! "storagesc.verifyChallengeTickets"] ∧ ∀ p ∈ perIndexSites, 0 < p.2 := by decide
+
+end IndexOwnership
 
 end ZChain.LockSet
